@@ -48,6 +48,28 @@ def cur():
 # --------------------------------------------------------------------------
 # conversions
 
+_IVAL = {}
+
+
+def _ival(n):
+    """cached z3 integer numeral"""
+    v = _IVAL.get(n)
+    if v is None:
+        v = z3.IntVal(n)
+        if -4096 <= n <= 4096:
+            _IVAL[n] = v
+    return v
+
+
+_ATOMS = {}  # ast id -> z3 Int expression (kept alive so ids stay stable)
+
+
+def _atom(z):
+    aid = z.get_id()
+    if aid not in _ATOMS:
+        _ATOMS[aid] = z
+    return aid
+
 
 def _is_sym(x):
     return isinstance(x, (SymInt, SymReal, SymBool))
@@ -58,11 +80,11 @@ def _znum(x):
     if isinstance(x, (SymInt, SymReal)):
         return x.z
     if isinstance(x, SymBool):
-        return z3.If(x.z, z3.IntVal(1), z3.IntVal(0))
+        return z3.If(x.z, _ival(1), _ival(0))
     if isinstance(x, bool):
-        return z3.IntVal(int(x))
+        return _ival(int(x))
     if isinstance(x, numbers.Integral):
-        return z3.IntVal(int(x))
+        return _ival(int(x))
     if isinstance(x, Fraction):
         return z3.Q(x.numerator, x.denominator)
     if isinstance(x, numbers.Real):
@@ -75,14 +97,14 @@ def _znum(x):
 
 
 def _wrap(z):
+    """z3 arithmetic term -> python number or proxy"""
     z = z3.simplify(z)
     if z3.is_int_value(z):
         return z.as_long()
     if z3.is_rational_value(z):
-        fr = Fraction(z.numerator_as_long(), z.denominator_as_long())
-        return fr
-    if z.sort() == z3.IntSort():
-        return SymInt(z)
+        return Fraction(z.numerator_as_long(), z.denominator_as_long())
+    if z.sort().kind() == z3.Z3_INT_SORT:
+        return SymInt({_atom(z): 1}, 0)
     return SymReal(z)
 
 
@@ -92,7 +114,7 @@ def _wrapb(z):
         return True
     if z3.is_false(z):
         return False
-    return SymBool(z)
+    return SymBool(None, None, z)
 
 
 def _zbool(x):
@@ -113,13 +135,70 @@ def _restore(key):
     return _CUR.pickled[key]
 
 
-class _Arith:
-    __slots__ = ('z',)
+def _mk(lin, c):
+    lin = {a: k for a, k in lin.items() if k != 0}
+    if not lin:
+        return c
+    return SymInt(lin, c)
 
-    def __init__(self, z):
-        self.z = z
 
-    # pickling keeps the proxy (proxies are immutable, sharing is harmless)
+def _isint(o):
+    return isinstance(o, numbers.Integral)
+
+
+class SymInt:
+    """integer proxy: a linear form  c + sum(coeff * atom)  kept in python; atoms are z3 Int terms"""
+
+    __slots__ = ('lin', 'c', '_zc')
+
+    def __init__(self, lin, c=0):
+        self.lin = lin
+        self.c = c
+        self._zc = None
+
+    @property
+    def z(self):
+        z = self._zc
+        if z is None:
+            terms = []
+            for aid, k in self.lin.items():
+                a = _ATOMS[aid]
+                terms.append(a if k == 1 else _ival(k) * a)
+            if self.c:
+                terms.append(_ival(self.c))
+            z = terms[0] if len(terms) == 1 else z3.Sum(terms)
+            self._zc = z
+        return z
+
+    def _eval(self):
+        """concrete value if every atom is already pinned on this path, else None"""
+        known = _CUR.known
+        tot = self.c
+        for aid, k in self.lin.items():
+            v = known.get(aid)
+            if v is None:
+                return None
+            tot += k * v
+        return tot
+
+    def _reduced(self):
+        """same value with the pinned atoms folded in (int or smaller SymInt)"""
+        known = _CUR.known
+        if not known:
+            return self
+        tot = self.c
+        lin = None
+        for aid, k in self.lin.items():
+            v = known.get(aid)
+            if v is not None:
+                tot += k * v
+                if lin is None:
+                    lin = dict(self.lin)
+                del lin[aid]
+        if lin is None:
+            return self
+        return _mk(lin, tot)
+
     def __reduce__(self):
         c = _CUR
         key = len(c.pickled)
@@ -127,7 +206,217 @@ class _Arith:
         return (_restore, (key,))
 
     def __repr__(self):
-        return f'<{type(self).__name__} {self.z}>'
+        return f'<SymInt {self.z}>'
+
+    __str__ = __repr__
+
+    def __format__(self, spec):
+        return repr(self)
+
+    # ---- linear arithmetic in python
+    def __add__(self, o):
+        if isinstance(o, SymInt):
+            lin = dict(self.lin)
+            for a, k in o.lin.items():
+                lin[a] = lin.get(a, 0) + k
+            return _mk(lin, self.c + o.c)
+        if _isint(o):
+            return SymInt(self.lin, self.c + int(o))
+        if isinstance(o, SymBool):
+            return self + o._asint()
+        oz = _znum(o)
+        if oz is None:
+            return NotImplemented
+        return _wrap(self.z + oz)
+
+    __radd__ = __add__
+
+    def __neg__(self):
+        return SymInt({a: -k for a, k in self.lin.items()}, -self.c)
+
+    def __pos__(self):
+        return self
+
+    def __sub__(self, o):
+        if isinstance(o, SymInt):
+            lin = dict(self.lin)
+            for a, k in o.lin.items():
+                lin[a] = lin.get(a, 0) - k
+            return _mk(lin, self.c - o.c)
+        if _isint(o):
+            return SymInt(self.lin, self.c - int(o))
+        if isinstance(o, SymBool):
+            return self - o._asint()
+        oz = _znum(o)
+        if oz is None:
+            return NotImplemented
+        return _wrap(self.z - oz)
+
+    def __rsub__(self, o):
+        if _isint(o):
+            return SymInt({a: -k for a, k in self.lin.items()}, int(o) - self.c)
+        oz = _znum(o)
+        if oz is None:
+            return NotImplemented
+        return _wrap(oz - self.z)
+
+    def __mul__(self, o):
+        if _isint(o):
+            k = int(o)
+            return _mk({a: c * k for a, c in self.lin.items()}, self.c * k)
+        if isinstance(o, SymInt):
+            v = o._eval()
+            if v is not None:
+                return self * v
+            v = self._eval()
+            if v is not None:
+                return o * v
+            return _wrap(self.z * o.z)
+        if isinstance(o, SymBool):
+            return self * o._asint()
+        oz = _znum(o)
+        if oz is None:
+            return NotImplemented
+        return _wrap(self.z * oz)
+
+    __rmul__ = __mul__
+
+    def __abs__(self):
+        v = self._eval()
+        if v is not None:
+            return abs(v)
+        z = self.z
+        return _wrap(z3.If(z >= 0, z, -z))
+
+    def __pow__(self, o):
+        if _isint(o) and 0 <= int(o) <= 4:
+            r = 1
+            for _ in range(int(o)):
+                r = r * self
+            return r
+        return NotImplemented
+
+    def __truediv__(self, o):
+        oz = _znum(o)
+        if oz is None:
+            return NotImplemented
+        if o == 0:
+            raise ZeroDivisionError('division by zero')
+        return _wrap(z3.ToReal(self.z) / oz)
+
+    def __rtruediv__(self, o):
+        oz = _znum(o)
+        if oz is None:
+            return NotImplemented
+        if self == 0:
+            raise ZeroDivisionError('division by zero')
+        oz = z3.ToReal(oz) if oz.sort().kind() == z3.Z3_INT_SORT else oz
+        return _wrap(oz / self.z)
+
+    def __floordiv__(self, o):
+        if _isint(o) and int(o) > 0:
+            v = self._eval()
+            if v is not None:
+                return v // int(o)
+            return _wrap(self.z / _ival(int(o)))
+        if _znum(o) is None:
+            return NotImplemented
+        return int(self) // (int(o) if isinstance(o, SymInt) else o)
+
+    def __rfloordiv__(self, o):
+        return o // int(self)
+
+    def __mod__(self, o):
+        if _isint(o) and int(o) > 0:
+            v = self._eval()
+            if v is not None:
+                return v % int(o)
+            return _wrap(self.z % _ival(int(o)))
+        if _znum(o) is None:
+            return NotImplemented
+        return int(self) % (int(o) if isinstance(o, SymInt) else o)
+
+    def __rmod__(self, o):
+        return o % int(self)
+
+    # ---- comparisons: kept as (op, linear form) until a verdict is needed
+    def _cmp(self, o, op):
+        if isinstance(o, SymInt) or _isint(o):
+            d = self - o
+            if not isinstance(d, SymInt):
+                return _CMP[op](d, 0)
+            return SymBool(op, d, None)
+        if isinstance(o, SymBool):
+            return self._cmp(o._asint(), op)
+        oz = _znum(o)
+        if oz is None:
+            return NotImplemented
+        return _wrapb(_ZCMP[op](self.z, oz))
+
+    def __lt__(self, o):
+        return self._cmp(o, 'lt')
+
+    def __le__(self, o):
+        return self._cmp(o, 'le')
+
+    def __gt__(self, o):
+        return self._cmp(o, 'gt')
+
+    def __ge__(self, o):
+        return self._cmp(o, 'ge')
+
+    def __eq__(self, o):
+        return self._cmp(o, 'eq')
+
+    def __ne__(self, o):
+        return self._cmp(o, 'ne')
+
+    def __bool__(self):
+        return bool(self != 0)
+
+    def __index__(self):
+        return _CUR.concretize_symint(self)
+
+    __int__ = __index__
+
+    def __float__(self):
+        return float(_CUR.concretize_symint(self))
+
+    def __hash__(self):
+        return hash(_CUR.concretize_symint(self))
+
+    def __round__(self, n=None):
+        return self
+
+    def __trunc__(self):
+        return self
+
+    __floor__ = __trunc__
+    __ceil__ = __trunc__
+
+
+_CMP = {'lt': lambda a, b: a < b, 'le': lambda a, b: a <= b, 'gt': lambda a, b: a > b,
+        'ge': lambda a, b: a >= b, 'eq': lambda a, b: a == b, 'ne': lambda a, b: a != b}
+_ZCMP = _CMP
+_NEG = {'lt': 'ge', 'le': 'gt', 'gt': 'le', 'ge': 'lt', 'eq': 'ne', 'ne': 'eq'}
+
+
+class SymReal:
+    """real proxy backed directly by a z3 Real term (reward parameters, rng.random draws)"""
+
+    __slots__ = ('z',)
+
+    def __init__(self, z):
+        self.z = z
+
+    def __reduce__(self):
+        c = _CUR
+        key = len(c.pickled)
+        c.pickled.append(self)
+        return (_restore, (key,))
+
+    def __repr__(self):
+        return f'<SymReal {self.z}>'
 
     __str__ = __repr__
 
@@ -174,7 +463,7 @@ class _Arith:
         return _wrap(z3.If(self.z >= 0, self.z, -self.z))
 
     def __pow__(self, o):
-        if isinstance(o, numbers.Integral) and 0 <= int(o) <= 4:
+        if _isint(o) and 0 <= int(o) <= 4:
             r = 1
             for _ in range(int(o)):
                 r = r * self
@@ -185,12 +474,9 @@ class _Arith:
         oz = _znum(o)
         if oz is None:
             return NotImplemented
-        if _is_sym(o):
-            if o == 0:
-                raise ZeroDivisionError('division by zero')
-        elif o == 0:
+        if o == 0:
             raise ZeroDivisionError('division by zero')
-        return _wrap(z3.ToReal(self.z) / oz if self.z.sort() == z3.IntSort() else self.z / oz)
+        return _wrap(self.z / oz)
 
     def __rtruediv__(self, o):
         oz = _znum(o)
@@ -198,7 +484,7 @@ class _Arith:
             return NotImplemented
         if self == 0:
             raise ZeroDivisionError('division by zero')
-        oz = z3.ToReal(oz) if oz.sort() == z3.IntSort() else oz
+        oz = z3.ToReal(oz) if oz.sort().kind() == z3.Z3_INT_SORT else oz
         return _wrap(oz / self.z)
 
     def __lt__(self, o):
@@ -217,59 +503,10 @@ class _Arith:
         return self._cmp(o, lambda a, b: a == b)
 
     def __ne__(self, o):
-        r = self._cmp(o, lambda a, b: a != b)
-        return r
+        return self._cmp(o, lambda a, b: a != b)
 
     def __bool__(self):
         return bool(self != 0)
-
-
-class SymInt(_Arith):
-    __slots__ = ()
-
-    def __index__(self):
-        return _CUR.concretize_int(self.z)
-
-    __int__ = __index__
-
-    def __float__(self):
-        return float(_CUR.concretize_int(self.z))
-
-    def __hash__(self):
-        return hash(_CUR.concretize_int(self.z))
-
-    def __round__(self, n=None):
-        return self
-
-    def __trunc__(self):
-        return self
-
-    __floor__ = __trunc__
-    __ceil__ = __trunc__
-
-    def __floordiv__(self, o):
-        if isinstance(o, numbers.Integral) and not _is_sym(o) and int(o) > 0:
-            return _wrap(self.z / z3.IntVal(int(o)))
-        if _znum(o) is None:
-            return NotImplemented
-        return int(self) // (int(o) if isinstance(o, SymInt) else o)
-
-    def __rfloordiv__(self, o):
-        return o // int(self)
-
-    def __mod__(self, o):
-        if isinstance(o, numbers.Integral) and not _is_sym(o) and int(o) > 0:
-            return _wrap(self.z % z3.IntVal(int(o)))
-        if _znum(o) is None:
-            return NotImplemented
-        return int(self) % (int(o) if isinstance(o, SymInt) else o)
-
-    def __rmod__(self, o):
-        return o % int(self)
-
-
-class SymReal(_Arith):
-    __slots__ = ()
 
     def __float__(self):
         return float(_CUR.concretize_real(self.z))
@@ -279,10 +516,39 @@ class SymReal(_Arith):
 
 
 class SymBool:
-    __slots__ = ('z',)
+    """boolean proxy: either a comparison `d <op> 0` over a python-side linear form, or a z3 Bool term"""
 
-    def __init__(self, z):
-        self.z = z
+    __slots__ = ('op', 'd', '_zc')
+
+    def __init__(self, op, d, z):
+        self.op, self.d, self._zc = op, d, z
+
+    @property
+    def z(self):
+        z = self._zc
+        if z is None:
+            z = _ZCMP[self.op](self.d.z, _ival(0))
+            self._zc = z
+        return z
+
+    def _eval(self):
+        if self.op is None:
+            return None
+        v = self.d._eval()
+        if v is None:
+            return None
+        return _CMP[self.op](v, 0)
+
+    def _reduced_z(self):
+        """z3 term with the pinned atoms folded in (may be a python bool)"""
+        if self.op is None:
+            return _CUR._reduce(self._zc)
+        d = self.d._reduced()
+        if not isinstance(d, SymInt):
+            return _CMP[self.op](d, 0)
+        if d is self.d:
+            return self.z
+        return _ZCMP[self.op](d.z, _ival(0))
 
     def __reduce__(self):
         c = _CUR
@@ -294,7 +560,10 @@ class SymBool:
         return f'<SymBool {self.z}>'
 
     def __bool__(self):
-        return _CUR.branch(self.z)
+        v = self._eval()
+        if v is not None:
+            return v
+        return _CUR.branch(self._reduced_z())
 
     def __index__(self):
         return int(bool(self))
@@ -332,12 +601,14 @@ class SymBool:
         return self._bin(o, lambda a, b: a != b)
 
     def __invert__(self):
-        # numpy's logical not on object arrays calls this; mimic `not`
-        return _wrapb(z3.Not(self.z))
+        return sym_not(self)
 
     # arithmetic on booleans (sum of flags)
     def _asint(self):
-        return SymInt(z3.If(self.z, z3.IntVal(1), z3.IntVal(0)))
+        v = self._eval()
+        if v is not None:
+            return int(v)
+        return _wrap(z3.If(self.z, _ival(1), _ival(0)))
 
     def __add__(self, o):
         return self._asint() + o
@@ -354,31 +625,49 @@ class SymBool:
 def sym_not(x):
     """logical negation that keeps a SymBool symbolic (python `not` would branch)"""
     if isinstance(x, SymBool):
+        if x.op is not None:
+            return SymBool(_NEG[x.op], x.d, None)
         return _wrapb(z3.Not(x.z))
     return not x
+
+
+def _ev(x):
+    """(is_concrete, value) of a possibly symbolic boolean under the pinned atoms"""
+    if isinstance(x, SymBool):
+        v = x._eval() if _CUR is not None else None
+        return (v is not None), v
+    return True, bool(x)
 
 
 def sym_and(*xs):
     zs = []
     for x in xs:
-        if isinstance(x, SymBool):
+        conc, v = _ev(x)
+        if conc:
+            if not v:
+                return False
+        else:
             zs.append(x.z)
-        elif not x:
-            return False
     if not zs:
         return True
+    if len(zs) == 1:
+        return _wrapb(zs[0])
     return _wrapb(z3.And(*zs))
 
 
 def sym_or(*xs):
     zs = []
     for x in xs:
-        if isinstance(x, SymBool):
+        conc, v = _ev(x)
+        if conc:
+            if v:
+                return True
+        else:
             zs.append(x.z)
-        elif x:
-            return True
     if not zs:
         return False
+    if len(zs) == 1:
+        return _wrapb(zs[0])
     return _wrapb(z3.Or(*zs))
 
 
@@ -388,14 +677,15 @@ def sym_implies(a, b):
 
 def sym_ite(c, a, b):
     """value-level if-then-else on numbers without forking"""
-    if not isinstance(c, SymBool):
-        return a if c else b
+    conc, v = _ev(c)
+    if conc:
+        return a if v else b
     az, bz = _znum(a), _znum(b)
     if az is None or bz is None:
         return a if bool(c) else b
-    if az.sort() != bz.sort():
-        az = z3.ToReal(az) if az.sort() == z3.IntSort() else az
-        bz = z3.ToReal(bz) if bz.sort() == z3.IntSort() else bz
+    if az.sort().kind() != bz.sort().kind():
+        az = z3.ToReal(az) if az.sort().kind() == z3.Z3_INT_SORT else az
+        bz = z3.ToReal(bz) if bz.sort().kind() == z3.Z3_INT_SORT else bz
     return _wrap(z3.If(c.z, az, bz))
 
 
@@ -470,6 +760,7 @@ class Explorer:
         self.notes = {}
         self.subs = []
         self.known = {}
+        self.asserted = []
         self._path_nontrivial = False
         self._stack = []
         self._t0 = 0.0
@@ -485,7 +776,10 @@ class Explorer:
         return r
 
     def _add(self, c, keeps_model=False):
+        if self.pos < len(self.prefix):
+            return  # replay phase: this constraint was pre-loaded with the queued prefix
         self.solver.add(c)
+        self.asserted.append(c)
         if self.model is not None and not keeps_model:
             try:
                 if not z3.is_true(self.model.eval(c, model_completion=True)):
@@ -519,16 +813,14 @@ class Explorer:
 
     # ---- decisions
     def _reduce(self, z):
-        z = z3.simplify(z)
-        if self.subs and not (z3.is_int_value(z) or z3.is_rational_value(z) or z3.is_true(z) or z3.is_false(z)):
-            k = self.known.get(z.get_id())
-            if k is not None:
-                return k
-            z = z3.simplify(z3.substitute(z, *self.subs))
-        return z
+        """fold the pinned atoms into a z3 term"""
+        if self.subs:
+            z = z3.substitute(z, *self.subs)
+        return z3.simplify(z)
 
     def branch(self, z):
-        z = self._reduce(z)
+        if isinstance(z, bool):
+            return z
         if z3.is_true(z):
             return True
         if z3.is_false(z):
@@ -539,7 +831,6 @@ class Explorer:
                 raise EngineError('non-deterministic harness: expected branch decision')
             self.pos += 1
             self.decisions.append(('b', b))
-            self._add(z if b else z3.Not(z), keeps_model=True)
             return b
         self._budget()
         m = self._get_model()
@@ -548,35 +839,37 @@ class Explorer:
         r, m2 = self._sat_with(other)
         if r == z3.sat:
             self.forks += 1
-            self._stack.append((self.decisions + [('b', not b)], m2))
+            self._stack.append((self.decisions + [('b', not b)], m2, self.asserted + [other]))
         elif r == z3.unknown:
             self.inconclusive_reasons.append('solver unknown at branch')
         self.decisions.append(('b', b))
         self.pos += 1
-        self.max_depth = max(self.max_depth, self.pos)
+        if self.pos > self.max_depth:
+            self.max_depth = self.pos
         self._add(z if b else z3.Not(z), keeps_model=True)
         return b
 
-    def _concretize(self, z, real=False):
-        z = self._reduce(z)
-        if z3.is_int_value(z) or z3.is_rational_value(z):
-            return _pyval(z)
+    def _pin(self, z, v, aid=None, replay=False):
+        zv = _znum(v)
+        if not replay:
+            self._add(z == zv, keeps_model=True)
+        self.subs.append((z, zv))
+        if aid is not None:
+            self.known[aid] = v
+
+    def _concretize(self, z, real=False, aid=None):
         excluded = []
         if self.pos < len(self.prefix):
             kind, val = self.prefix[self.pos]
             if kind == 'v':
                 self.pos += 1
                 self.decisions.append(('v', val))
-                zv = _znum(val)
-                self._add(z == zv, keeps_model=True)
-                self.subs.append((z, zv))
-                self.known[z.get_id()] = zv
+                self._pin(z, val, aid, replay=True)
                 return val
             if kind != 'x':
                 raise EngineError('non-deterministic harness: expected value decision')
-            excluded = list(val)
-            for e in excluded:
-                self._add(z != _znum(e), keeps_model=True)
+            excluded = list(val)  # the exclusions were pre-loaded with the queued prefix
+            self.prefix = self.prefix[:self.pos]  # live from here on
         self._budget()
         if len(excluded) >= self.max_concretize:
             self.inconclusive_reasons.append('concretisation of a variable with too many values')
@@ -588,52 +881,71 @@ class Explorer:
             self.inconclusive_reasons.append('concretisation of an unconstrained real')
             raise Abort()
         self.concretizations += 1
-        r, m2 = self._sat_with(z3.And(z != _znum(v), *[z != _znum(e) for e in excluded]))
+        ne = z != _znum(v)
+        r, m2 = self._sat_with(ne)
         if r == z3.sat:
             if real:
                 self.inconclusive_reasons.append('concretisation of an unconstrained real')
                 raise Abort()
             self.forks += 1
-            self._stack.append((self.decisions + [('x', excluded + [v])], m2))
+            self._stack.append((self.decisions + [('x', excluded + [v])], m2, self.asserted + [ne]))
         elif r == z3.unknown:
             self.inconclusive_reasons.append('solver unknown at concretisation')
         self.decisions.append(('v', v))
         self.pos += 1
-        self.max_depth = max(self.max_depth, self.pos)
-        zv = _znum(v)
-        self._add(z == zv, keeps_model=True)
-        self.subs.append((z, zv))
-        self.known[z.get_id()] = zv
+        if self.pos > self.max_depth:
+            self.max_depth = self.pos
+        self._pin(z, v, aid)
         return v
 
-    def concretize_int(self, z):
-        return self._concretize(z)
+    def _concretize_atom(self, aid):
+        z = _ATOMS[aid]
+        if z.num_args() > 0 and self.subs:  # compound atom: may already be determined by pinned atoms
+            zr = self._reduce(z)
+            if z3.is_int_value(zr):
+                v = zr.as_long()
+                self.known[aid] = v
+                return v
+        return self._concretize(z, aid=aid)
+
+    def concretize_symint(self, s):
+        v = s._eval()
+        if v is not None:
+            return v
+        known = self.known
+        for aid in list(s.lin):
+            if aid not in known:
+                self._concretize_atom(aid)
+        return s._eval()
 
     def concretize_real(self, z):
+        z = self._reduce(z)
+        if z3.is_int_value(z) or z3.is_rational_value(z):
+            return _pyval(z)
         return self._concretize(z, real=True)
 
     # ---- harness API (mirrored by Concrete below)
     def int(self, name, lo=None, hi=None):
         if name in self.inputs:  # same named input asked again (e.g. by a copy of a lazy object): same variable
-            return SymInt(self.inputs[name])
+            return SymInt({_atom(self.inputs[name]): 1}, 0)
         v = z3.Int(name)
         self.inputs[name] = v
         if lo is not None:
             self._add(v >= _znum(lo))
         if hi is not None:
             self._add(v <= _znum(hi))
-        return SymInt(v)
+        return SymInt({_atom(v): 1}, 0)
 
     def bool(self, name):
         if name in self.inputs:
-            raise EngineError(f'duplicate input {name}')
+            return SymBool(None, None, self.inputs[name])
         v = z3.Bool(name)
         self.inputs[name] = v
-        return SymBool(v)
+        return SymBool(None, None, v)
 
     def real(self, name, lo=None, hi=None, lo_strict=False, hi_strict=False):
         if name in self.inputs:
-            raise EngineError(f'duplicate input {name}')
+            return SymReal(self.inputs[name])
         v = z3.Real(name)
         self.inputs[name] = v
         if lo is not None:
@@ -652,9 +964,15 @@ class Explorer:
 
     def assume(self, cond):
         if isinstance(cond, SymBool):
-            z = cond.z
+            z = cond._reduced_z()
+            if isinstance(z, bool) or z3.is_true(z) or z3.is_false(z):
+                if z is False or (not isinstance(z, bool) and z3.is_false(z)):
+                    raise Assume()
+                return
+            if self.pos < len(self.prefix):
+                return  # replay phase: satisfiable and pre-loaded
             if self.model is not None and z3.is_true(self.model.eval(z, model_completion=True)):
-                self._add(z)
+                self._add(z, keeps_model=True)
                 return
             r, m = self._sat_with(z)
             if r == z3.unsat:
@@ -662,7 +980,7 @@ class Explorer:
             if r == z3.unknown:
                 self.inconclusive_reasons.append('solver unknown at assume')
                 raise Assume()
-            self.solver.add(z)
+            self._add(z, keeps_model=True)
             self.model = m
         elif not cond:
             raise Assume()
@@ -680,14 +998,23 @@ class Explorer:
         """assert cond on this path: valid under the path condition or a violation"""
         self.checks_reached += 1
         if isinstance(cond, SymBool):
+            z = cond._reduced_z()
+            if isinstance(z, bool):
+                if not z:
+                    self._violation(label, message, None)
+                return
+            if z3.is_true(z):
+                return
+            if self.pos < len(self.prefix):
+                return  # replay phase: decided valid when this prefix was first explored
             self.checks_symbolic += 1
-            r, m = self._sat_with(z3.Not(cond.z))
+            r, m = self._sat_with(z3.Not(z))
             if r == z3.unsat:
-                self._add(cond.z)
+                self._add(z, keeps_model=True)
                 return
             if r == z3.unknown:
                 self.inconclusive_reasons.append(f'solver unknown at check {label}')
-                self._add(cond.z)
+                self._add(z)
                 return
             self._violation(label, message, m)
         elif not cond:
@@ -716,7 +1043,7 @@ class Explorer:
     def explore(self, fn):
         global _CUR
         self._t0 = time.perf_counter()
-        self._stack = [([], None)]
+        self._stack = [([], None, [])]
         prev = _CUR
         try:
             while self._stack:
@@ -726,12 +1053,15 @@ class Explorer:
                 if time.perf_counter() - self._t0 > self.time_limit:
                     self.inconclusive_reasons.append('time limit')
                     break
-                prefix, model = self._stack.pop()
+                prefix, model, asserted = self._stack.pop()
                 self.prefix, self.decisions, self.pos = prefix, [], 0
                 self.model = model
+                self.asserted = asserted
                 self.inputs, self.pickled, self.notes, self.subs, self.known = {}, [], {}, [], {}
                 self._path_nontrivial = False
                 self.solver.push()
+                if asserted:
+                    self.solver.add(*asserted)
                 _CUR = self
                 self.paths += 1
                 try:
